@@ -36,9 +36,9 @@ CLAIMED = {
     "C10": dict(
         text="Theorems: the message handed to send_msg for a burst that is neither muted nor dropped has the sender's FN/TN, the recipient's version, bits mapped 0 -> +127 / non-zero -> -127, "
              "RSSI = nominal power - attenuation - burst attenuation - 110 or a draw inside the FAKE_RSSI window, ToA256 = draw in window - 256 x TA, C/I in window, modulation by burst length, "
-             "TSC detection sound (the reported sequence is present at its position) and exact for generator-built access bursts; datagram = documented layout, v0 followed by two padding octets; "
+             "TSC detection sound (the reported sequence is present at its position) and exact for generator-built access, normal and sync bursts; datagram = documented layout, v0 followed by two padding octets; "
              "defaults and the training-sequence table regenerated and proved equal to the hand-typed 45.002 tables; sessions with the real RandBurstGen compared with the model + independent metadata reference.",
-        note="partial: c10_tsc_generated for normal/sync bursts (no earlier-enumerated sequence matching inside the random payload) is not proved, only exercised by correspondence with the real generator; "
+        note="TSC of generator-built normal/sync bursts is proved under the side condition the detection rule imposes (no access-burst sequence at bits 8..48 of the payload); "
              "random draws are an explicit oracle list (randint replaced by lo + r mod (hi-lo+1) in the harness).",
         technique="Coq proof + Gen tables by reflection + extracted session-model correspondence + metadata oracle", ref="7-C10"),
     "C11": dict(
